@@ -162,6 +162,22 @@ static void equal_but_distinct_probe(Case& c) {
 		if(std::signbit(P.data_elements()[k]) != ws) { violation(K + "signed-zero", std::string("element ") + std::to_string(k) + (ws ? " was not set to the source's -0.0" : " outside the destination was changed")); break; } }
 }
 
+// whole-block assignment between references / element blocks of DIFFERENT, convertible element types (array_ref<double> = array_ref<int>, A.elements() = L.elements()): element by element conversion
+static void cross_type_block_probe(Case& c) {
+	Rng& g = c.rng; L const r = g.in(1, 3), q = g.in(1, 4); int const form = int(g.below(5)); static char const* FN[] = {"array_ref<double>=array_ref<int>", "array_ref<float>=array<double>", "array<int>.elements()=array<long>.elements()", "array_ref<double,1>=array_ref<float,1>", "array_ref<long>=array_ref<int>(named destination)"};
+	describe(std::string(" + cross-type block ") + FN[form]); op("assign(cross-type block)"); count(std::string("cross-type-block:") + FN[form]); std::string const K = std::string("C05:assign(cross-type block):") + FN[form] + ":"; L const n = r * q; L const GG = 4;
+	auto bad = [&](L k) { violation(K + "wrong-value", "element " + std::to_string(k) + " of the destination is not the converted source element"); };
+	switch(form) {
+	case 0: { std::vector<double> db(std::size_t(n + 2 * GG), -1.0); std::vector<int> ib(static_cast<std::size_t>(n)); for(L k = 0; k < n; ++k) ib[std::size_t(k)] = int(k + 1); multi::array_ref<double, 2>({r, q}, db.data() + GG) = multi::array_ref<int, 2>({r, q}, ib.data());
+		for(L k = 0; k < n; ++k) if(db[std::size_t(GG + k)] != double(k + 1)) { bad(k); break; } for(L k = 0; k < GG; ++k) if(db[std::size_t(k)] != -1.0 || db[std::size_t(GG + n + k)] != -1.0) { violation(K + "guard-modified", "an element next to the destination block changed"); break; } break; }
+	case 1: { std::vector<float> fb(std::size_t(n + 2 * GG), -1.0F); multi::array<double, 2> S({r, q}); { L k = 0; for(auto& e : S.elements()) e = 1.5 + double(k++); } multi::array_ref<float, 2>({r, q}, fb.data() + GG) = S;
+		for(L k = 0; k < n; ++k) if(fb[std::size_t(GG + k)] != float(1.5 + double(k))) { bad(k); break; } for(L k = 0; k < GG; ++k) if(fb[std::size_t(k)] != -1.0F || fb[std::size_t(GG + n + k)] != -1.0F) { violation(K + "guard-modified", "an element next to the destination block changed"); break; } break; }
+	case 2: { multi::array<int, 1> A(multi::extensions_t<1>{n}, -1); multi::array<long, 1> Lg(multi::extensions_t<1>{n}); for(L k = 0; k < n; ++k) Lg[k] = 10 * (k + 1); A.elements() = Lg.elements(); for(L k = 0; k < n; ++k) if(A[k] != int(10 * (k + 1))) { bad(k); break; } break; }
+	case 3: { std::vector<double> db(static_cast<std::size_t>(n), -1.0); std::vector<float> fb(static_cast<std::size_t>(n)); for(L k = 0; k < n; ++k) fb[std::size_t(k)] = 0.5F / float(k + 1); multi::array_ref<double, 1>(multi::extensions_t<1>{n}, db.data()) = multi::array_ref<float, 1>(multi::extensions_t<1>{n}, fb.data()); for(L k = 0; k < n; ++k) if(db[std::size_t(k)] != double(0.5F / float(k + 1))) { bad(k); break; } break; }
+	default: { std::vector<long> lb(static_cast<std::size_t>(n), -1); std::vector<int> ib(static_cast<std::size_t>(n)); for(L k = 0; k < n; ++k) ib[std::size_t(k)] = int(7 * k - 3); multi::array_ref<long, 2> RD({r, q}, lb.data()); multi::array_ref<int, 2> const RS({r, q}, ib.data()); std::move(RD) = RS; for(L k = 0; k < n; ++k) if(lb[std::size_t(k)] != long(7 * k - 3)) { bad(k); break; } break; }
+	}
+}
+
 int main(int argc, char** argv) {
 	// only operations that keep a mutable view type on the pinned tree, and no const value category
 	cfg.kind_mask = (1UL << K_INDEX) | (1UL << K_SLICED) | (1UL << K_STRIDED) | (1UL << K_DROPPED) | (1UL << K_TAKED) | (1UL << K_ROTATED) | (1UL << K_UNROTATED) | (1UL << K_TRANSPOSED) | (1UL << K_DIAGONAL) | (1UL << K_PARTITIONED) | (1UL << K_FLATTED) | (1UL << K_CALL) | (1UL << K_PAREN);
@@ -177,5 +193,6 @@ int main(int argc, char** argv) {
 #endif
 		if(c.k % 6 == 0 && st().case_viol == 0) aliased_swap_probe(c);
 		if(c.k % 6 == 3 && st().case_viol == 0) equal_but_distinct_probe(c);
+		if(c.k % 6 == 5 && st().case_viol == 0) cross_type_block_probe(c);
 	});
 }
